@@ -53,8 +53,14 @@ pub const CSI2: Sym = Sym::Lit("CSI2", "\x1b[38;5;9m");
 pub const CSIT: Sym = Sym::Lit("CSIT", "\x1b[3~");
 pub const OSB: Sym = Sym::Lit("OSB", "\x1b]8;;u\x07");
 pub const OSS: Sym = Sym::Lit("OSS", "\x1b]8;;u\x1b\\");
-/// OSC hyperlink whose URL contains a hyphen between alphanumerics (realistic: "https://my-site.org")
-pub const OSH: Sym = Sym::Lit("OSH", "\x1b]8;;1-2\x1b\\");
+/// OSC hyperlink whose URL contains two hyphens between alphanumerics (realistic: "https://my-site.org")
+pub const OSH: Sym = Sym::Lit("OSH", "\x1b]8;;1-2-3\x1b\\");
+/// OSC whose payload begins with a backslash (a UNC path as window title), BEL-terminated
+pub const OSBS: Sym = Sym::Lit("OSBS", "\x1b]\\a\x07");
+/// OSC whose payload contains an ESC that is not part of the terminator
+pub const OSCE: Sym = Sym::Lit("OSCE", "\x1b]a\x1bb\x07");
+/// CSI with an intermediate space (DECSCUSR cursor style)
+pub const CSIS: Sym = Sym::Lit("CSIS", "\x1b[2 q");
 pub const ESC: Sym = Sym::Lit("ESC", "\x1b");
 pub const LBR: Sym = Sym::Lit("LBR", "[");
 pub const RBR: Sym = Sym::Lit("RBR", "]");
